@@ -61,6 +61,11 @@ const BINCODE_CONFIG: config::Configuration<
     config::NoLimit,
 > = config::legacy(); // todo choose local endianess
 
+/// verification hook: step executor for the handler functions of this module
+#[cfg(adlt_verif)]
+#[path = "verif_driver.rs"]
+pub mod verif_driver;
+
 pub fn add_subcommand(app: Command) -> Command {
     app.subcommand(
         Command::new("remote")
@@ -1697,6 +1702,8 @@ fn process_file_context<T: Read + Write>(
     let mut got_new_msgs = false;
     let mut parser_thread_finished = false;
     let deadline = std::time::Instant::now() + std::time::Duration::from_millis(50);
+    #[cfg(adlt_verif)]
+    let deadline = verif_driver::adjust_deadline(deadline);
 
     if let Some(progress) = &mut fc.pending_extract {
         match progress.poll() {
@@ -1763,6 +1770,10 @@ fn process_file_context<T: Read + Write>(
     if let Some(pt) = &fc.parsing_thread {
         let rx = &pt.rx;
         loop {
+            #[cfg(adlt_verif)]
+            if !verif_driver::take_budget() {
+                break;
+            }
             // todo use rx.try_recv first???
             let rm = rx.recv_timeout(std::time::Duration::from_millis(10));
             match rm {
@@ -1778,6 +1789,10 @@ fn process_file_context<T: Read + Write>(
                 }
                 Err(e) => match e {
                     std::sync::mpsc::RecvTimeoutError::Timeout => {
+                        #[cfg(adlt_verif)]
+                        if verif_driver::retry_on_timeout() {
+                            continue;
+                        }
                         break;
                     }
                     std::sync::mpsc::RecvTimeoutError::Disconnected => {
